@@ -144,7 +144,7 @@ def _resolve_upvar(F, parent, closure, node):
     return node
 
 
-@rule('R12.3', ['C12'], floor=4, clause='reassembly key is (identification, source, destination, protocol)')
+@rule('R12.3', ['C12', 'C11'], floor=4, clause='reassembly key is (identification, source, destination, protocol)')
 def r12_3(ctx):
     F = ctx.F
     b = ctx.method('wire::ipv4::Packet', 'get_key')
